@@ -3,6 +3,7 @@
 # applies, builds, existing suite passes, demonstration fails with it and passes without it.
 d=$1; R=/tmp/repo_conf
 export GOFLAGS=-mod=mod GOPROXY=off GOSUMDB=off GOTOOLCHAIN=local
+[ -d $R ] || git -C /repo worktree add -q --detach $R HEAD
 cd $R && git checkout -q -- . && git clean -fdq
 demo=$(ls $d/*_test.go | head -1)
 pkgdir=$(grep -o "\(pkg\|internal\)/[A-Za-z0-9_/]*" $demo | head -1)
